@@ -429,6 +429,15 @@ func checkLockPairing(c *Ctx, r *Rec, rule string, info *types.Info, fd *ast.Fun
 							if call, ok := y.(*ast.CallExpr); ok && isBuiltinCall(info, call, "panic") {
 								found = true
 							}
+							// a method of the same type that raises a panic itself (a limit check of
+							// a traversal, say) is a panic under the lock all the same
+							if call, ok := y.(*ast.CallExpr); ok && !found {
+								if rn := recvNamedOfDecl(c, fd); rn != nil {
+									if cf := calleeOf(info, call); cf != nil && recvNamed(cf) != nil && recvNamed(cf).Origin() == rn.Origin() && methodMayPanic(c, c.declOf(cf), rn, 0, map[*ast.FuncDecl]bool{}) {
+										found = true
+									}
+								}
+							}
 							return true
 						})
 						return found
@@ -573,10 +582,52 @@ func checkPooledEscape(c *Ctx, r *Rec, rule string) {
 					continue
 				}
 				for _, rv := range ret.Results {
-					if !carriesStorage(rv.Type()) {
+					roots := map[ssa.Value]bool{}
+					// a function literal that is handed out takes what it captures with it (a deferred
+					// call makes the compiler spill the result into a local slot first)
+					var closures []*ssa.MakeClosure
+					var findClosures func(v ssa.Value, depth int)
+					findClosures = func(v ssa.Value, depth int) {
+						if depth > 4 {
+							return
+						}
+						switch x := v.(type) {
+						case *ssa.MakeClosure:
+							closures = append(closures, x)
+						case *ssa.Phi:
+							for _, e := range x.Edges {
+								findClosures(e, depth+1)
+							}
+						case *ssa.UnOp:
+							if a, ok := x.X.(*ssa.Alloc); ok && x.Op == token.MUL && a.Referrers() != nil {
+								for _, rf := range *a.Referrers() {
+									if st, ok := rf.(*ssa.Store); ok && st.Addr == ssa.Value(a) {
+										findClosures(st.Val, depth+1)
+									}
+								}
+							}
+						}
+					}
+					findClosures(rv, 0)
+					for _, mc := range closures {
+						for _, bnd := range mc.Bindings {
+							if cell, ok := bnd.(*ssa.Alloc); ok {
+								roots[cell] = true
+								if refs := cell.Referrers(); refs != nil {
+									for _, rf := range *refs {
+										if st, ok := rf.(*ssa.Store); ok && st.Addr == ssa.Value(cell) {
+											allocRoots(st.Val, map[ssa.Value]bool{}, roots)
+										}
+									}
+								}
+								continue
+							}
+							allocRoots(bnd, map[ssa.Value]bool{}, roots)
+						}
+					}
+					if len(closures) == 0 && !carriesStorage(rv.Type()) {
 						continue
 					}
-					roots := map[ssa.Value]bool{}
 					allocRoots(rv, map[ssa.Value]bool{}, roots)
 					for root := range roots {
 						if pooled[root] {
@@ -734,4 +785,35 @@ func recheckedInsert(g *FG, info *types.Info, fd *ast.FuncDecl, key string) bool
 		}
 	}
 	return true
+}
+
+// methodMayPanic: the method, or a method of the same type it calls (a few levels deep), contains
+// an explicit panic.
+func methodMayPanic(c *Ctx, fd *ast.FuncDecl, n *types.Named, depth int, seen map[*ast.FuncDecl]bool) bool {
+	if fd == nil || fd.Body == nil || depth > 4 || seen[fd] {
+		return false
+	}
+	seen[fd] = true
+	info := c.infoFor(fd)
+	if info == nil {
+		return false
+	}
+	found := false
+	ast.Inspect(fd.Body, func(x ast.Node) bool {
+		call, ok := x.(*ast.CallExpr)
+		if !ok || found {
+			return !found
+		}
+		if isBuiltinCall(info, call, "panic") {
+			found = true
+			return false
+		}
+		if cf := calleeOf(info, call); cf != nil && recvNamed(cf) != nil && recvNamed(cf).Origin() == n.Origin() {
+			if methodMayPanic(c, c.declOf(cf), n, depth+1, seen) {
+				found = true
+			}
+		}
+		return true
+	})
+	return found
 }
